@@ -12,6 +12,8 @@ PROP = {
          "tests": [("TestVFC09Concurrent", (25, 120))], "shards": (2, 16)},
         {"name": "querylog", "pkg": "internal/querylog", "files": ["querylog/c05_qlog_test.go"],
          "tests": [("TestVFC05QueryLogPrograms", (60, 300))], "shards": (2, 16)},
+        {"name": "dhcpd", "pkg": "internal/dhcpd", "files": ["dhcpd/c10_world_test.go", "dhcpd/c05_dhcp_test.go"],
+         "tests": [("TestVFC05DHCPPrograms", (60, 300))], "shards": (2, 16)},
     ],
     "level": "exploration",
     "technique": "generated concurrent programs (rapid) executed under the Go race detector with halt_on_error; "
